@@ -38,6 +38,16 @@ def named_inter_member(t):
     return False
 
 
+def norm_text(t):
+    """the described text without documentation comments and layout (a description is metadata: the property speaks about the
+    values accepted and the hash256 of the re-compiled text, and beff does not attach a comment to every kind of member)"""
+    t = re.sub(r"/\*\*.*?\*/", "", t, flags=re.S)
+    t = re.sub(r"\s+", " ", t).replace("{ ", "{").replace(" }", "}").strip()
+    # members of a documented object are printed one per line with ';', of an undocumented one on one line with ','
+    t = t.replace(";", ",").replace(", ", ",")
+    return t.replace(",}", "}")
+
+
 def optional_index_next_to_named(text):
     """syntactic projection of the describe() text: is there an object literal with an optional mapped member
     ([K in X]?: V) next to at least one other member?  (TypeScript has no spelling for that object type.)"""
@@ -176,10 +186,11 @@ def run(prop, tier):
                "inexactlit": any(x in c["_src"] for x in INEXACT_LITERALS),
                "namedinter": named_inter_member(c["ty"]) or any(named_inter_member(d.get("ty", {})) for d in c["env"]),
                "optixnamed": False,
-               "tploneof": '"p": "oneof"' in json.dumps(c["ty"]) or '"p": "oneof"' in json.dumps(c["env"]), "desc1ok": False, "desc1": "", "decls": [], "vec1": "", "h1": "", "outcome2": "none", "vec2": "", "h2": "", "desc2": ""}
+               "tploneof": '"p": "oneof"' in json.dumps(c["ty"]) or '"p": "oneof"' in json.dumps(c["env"]), "desc1ok": False, "desc1": "", "decls": [], "vec1": "", "h1": "", "outcome2": "none", "vec2": "", "h2": "", "desc2": "", "desc1n": "", "desc2n": ""}
         if o1 is not None and o1["load"] == "ok":
             rec["desc1ok"] = o1["describe"]["ok"]
             rec["desc1"] = o1["describe"]["v"] if o1["describe"]["ok"] else o1["describe"]["msg"]
+            rec["desc1n"] = norm_text(rec["desc1"])
             rec["decls"] = DECL.findall(rec["desc1"]) if o1["describe"]["ok"] else []
             rec["optixnamed"] = bool(o1["describe"]["ok"]) and optional_index_next_to_named(rec["desc1"])
             rec["vec1"] = vec(o1)
@@ -195,6 +206,7 @@ def run(prop, tier):
                         rec["vec2"] = vec(o2)
                         rec["h2"] = o2["h256"]["v"]
                         rec["desc2"] = o2["describe"]["v"] if o2["describe"]["ok"] else "threw:" + o2["describe"]["msg"]
+                        rec["desc2n"] = norm_text(rec["desc2"])
         recs.append(rec)
     open_k = vlib.open_findings("C15")
     dev_to_k = {k["deviation"]: k for k in open_k if k.get("deviation")}
